@@ -2,15 +2,15 @@ SPECIFICATION SpecMC
 CONSTANTS
   MaxDev = 2
   Depth = 2
-  EditOps = {"AddParagraph", "AddHeading", "AddImage", "AddHeader", "AddFooter", "AddListItem", "AddFootnote", "AddEndnote", "SetFootnoteConfig", "SetTitle", "AddTable", "RemoveParagraphAt", "Save", "Reopen", "Render"}
-  Dims = {"base", "extra", "scheme", "ext", "media", "ns", "pkgns", "tgstyle", "pkgids", "cont", "blk", "xrel", "mix", "mixin", "sty", "sdef", "sref"}
+  EditOps = {"AddParagraph", "AddHeading", "AddImage", "AddHeader", "AddFooter", "AddListItem", "AddFootnote", "AddEndnote", "SetFootnoteConfig", "SetTitle", "SetAuthor", "UpdateStatistics", "GetDocumentProperties", "AddTable", "RemoveParagraphAt", "Save", "Reopen", "Render"}
+  Dims = {"base", "extra", "scheme", "ext", "media", "ns", "pkgns", "tgstyle", "pkgids", "cont", "blk", "xrel", "mix", "mixin", "sty", "sdef", "sref", "bytes", "zip", "place"}
   ImgFmts = {"png"}
   ImgNames = {"ext"}
   IdPool = {"rId1", "rId40"}
   NamePool = {"image0.png", "image2.png"}
-  SlimDims = {"xrel", "mix", "mixin", "sty", "sdef", "sref"}
+  SlimDims = {"xrel", "mix", "mixin", "sty", "sdef", "sref", "bytes", "zip"}
   SlimOps = {"AddHeading", "AddFootnote", "Reopen"}
-  DimGroups = {{"base", "extra", "scheme", "ext", "media", "ns", "pkgns", "tgstyle", "pkgids", "cont", "blk"}, {"base", "extra", "scheme", "ext", "media", "tgstyle", "pkgids", "xrel"}, {"ns", "pkgns", "cont", "blk", "mix", "mixin"}, {"base", "scheme", "sty", "sdef", "sref"}}
+  DimGroups = {{"base", "extra", "scheme", "ext", "media", "ns", "pkgns", "tgstyle", "pkgids", "cont", "blk"}, {"base", "extra", "scheme", "ext", "media", "tgstyle", "pkgids", "xrel"}, {"ns", "pkgns", "cont", "blk", "mix", "mixin"}, {"base", "scheme", "sty", "sdef", "sref"}, {"base", "bytes", "zip", "place", "tgstyle", "pkgids"}}
 INVARIANTS Inv_All Inv_DetectParts Inv_DetectRels Inv_ShapeWellFormed
 PROPERTIES Act_Frame
 CHECK_DEADLOCK FALSE
